@@ -164,39 +164,190 @@ class StmtMixin:
     def s_Continue(self, node, frame):
         raise E._Continue()
 
-    def is_print_only(self, stmts):
-        return bool(stmts) and all(isinstance(st, ast.Expr) and isinstance(st.value, ast.Call)
-                                   and isinstance(st.value.func, ast.Name) and st.value.func.id == "print"
-                                   for st in stmts)
+    PURE_BUILTINS = {"len", "min", "max", "abs", "int", "float", "str", "bool", "round"}
+
+    def simple_expr(self, e):
+        for n in ast.walk(e):
+            if isinstance(n, ast.Call):
+                if not (isinstance(n.func, ast.Name) and n.func.id in self.PURE_BUILTINS):
+                    return False
+            elif isinstance(n, (ast.Lambda, ast.ListComp, ast.SetComp, ast.DictComp, ast.GeneratorExp, ast.Await, ast.Yield,
+                                ast.NamedExpr, ast.Starred)):
+                return False
+        return True
+
+    def is_print(self, st):
+        return isinstance(st, ast.Expr) and isinstance(st.value, ast.Call) and isinstance(st.value.func, ast.Name) \
+            and st.value.func.id == "print"
+
+    def mergeable_block(self, stmts):
+        for st in stmts:
+            if isinstance(st, ast.Pass) or self.is_print(st):
+                continue
+            if isinstance(st, ast.Expr) and isinstance(st.value, ast.Constant):
+                continue
+            if isinstance(st, ast.If):
+                if not (self.simple_expr(st.test) and self.mergeable_block(st.body) and self.mergeable_block(st.orelse)):
+                    return False
+                continue
+            if isinstance(st, (ast.Assign, ast.AugAssign)):
+                tg = st.targets if isinstance(st, ast.Assign) else [st.target]
+                for t in tg:
+                    if isinstance(t, ast.Name):
+                        continue
+                    if isinstance(t, ast.Attribute) and self.simple_expr(t.value):
+                        continue
+                    return False
+                if not self.simple_expr(st.value):
+                    return False
+                continue
+            return False
+        return True
+
+    def merge_value(self, c, a, b):
+        """value that is `a` when c holds and `b` otherwise, or None if the kinds cannot be merged"""
+        run = self.run
+        if a is b:
+            return a
+        if isinstance(a, VRef) and isinstance(b, VRef):
+            if a.oid == b.oid:
+                return a
+            if a.kind == b.kind == "list":
+                ra, rb = run.rec(a.oid), run.rec(b.oid)
+                if not ra.concrete and not rb.concrete and ra.elem == rb.elem and (ra.arr is None) == (rb.arr is None) \
+                        and ra.elem[0] != "obj":
+                    nr = ListRec(None, z3.If(c, ra.length, rb.length), ra.elem,
+                                 None if ra.arr is None else z3.If(c, ra.arr, rb.arr), sym=ra.sym)
+                    return VRef(run.alloc(nr), "list")
+            return None
+        if isinstance(a, VNone) and isinstance(b, VNone):
+            return a
+        if isinstance(a, VTuple) and isinstance(b, VTuple) and len(a.items) == len(b.items):
+            xs = [self.merge_value(c, x, y) for x, y in zip(a.items, b.items)]
+            return None if any(x is None for x in xs) else VTuple(xs)
+        prim = (VInt, VReal, VBool, VStr, VEnum, VAny)
+        if isinstance(a, prim) and isinstance(b, prim):
+            if type(a) is type(b) or (isinstance(a, (VInt, VReal)) and isinstance(b, (VInt, VReal))):
+                if isinstance(a, VEnum) and a.ename != b.ename:
+                    return None
+                if isinstance(a, VInt) != isinstance(b, VInt):
+                    return None
+                return self.ite(c, a, b)
+        return None
+
+    def try_merge_if(self, node, frame, t):
+        """if-conversion of a side-effect-light `if`: run both branches speculatively and merge the states"""
+        run = self.run
+        nlog = len(run.log)
+        heap0 = run.snapshot()
+        locals0 = dict(frame.locals)
+        next0 = run.next_oid
+
+        def restore():
+            run.heap = {k: v.copy() for k, v in heap0.items()}
+            frame.locals.clear()
+            frame.locals.update(locals0)
+
+        def fail():
+            restore()
+            del run.log[nlog:]
+            del run.trace[nlog:]
+            return False
+
+        def branch(cond, stmts):
+            def thunk():
+                self.exec_block(stmts, frame)
+                return True
+            try:
+                r = self.under(cond, thunk)
+            except (E.PyExc, E._Return, E._Break, E._Continue):
+                return "fail"
+            if len(run.log) != nlog:
+                return "fail"
+            return "ok" if r else "infeasible"
+
+        r1 = branch(t, node.body)
+        if r1 == "fail":
+            return fail()
+        heap1, locals1 = run.heap, dict(frame.locals)
+        restore()
+        r2 = branch(z3.Not(t), node.orelse)
+        if r2 == "fail":
+            return fail()
+        heap2, locals2 = run.heap, dict(frame.locals)
+        if r1 == "infeasible" and r2 == "infeasible":
+            raise E.PathEnd()
+        if r1 == "infeasible":
+            run.assume(z3.Not(t))
+            return True
+        if r2 == "infeasible":
+            run.heap = heap1
+            frame.locals.clear()
+            frame.locals.update(locals1)
+            run.assume(t)
+            return True
+        # merge (current heap is heap2; fold heap1 into it)
+        merged_locals = {}
+        for k in set(locals1) | set(locals2):
+            if k not in locals1 or k not in locals2:
+                return fail()          # a name bound on one side only
+            run.heap = heap2
+            # merged list records are allocated in heap2 but may reference heap1 records: make both visible
+            for oid, rec in heap1.items():
+                if oid not in heap2:
+                    heap2[oid] = rec
+            m = self.merge_value(t, locals1[k], locals2[k])
+            if m is None:
+                return fail()
+            merged_locals[k] = m
+        for oid in list(heap1):
+            r1_, r2_ = heap1[oid], heap2.get(oid)
+            if r2_ is None or r1_ is r2_:
+                heap2.setdefault(oid, r1_)
+                continue
+            if isinstance(r1_, ObjRec) and isinstance(r2_, ObjRec):
+                for f in set(r1_.fields) | set(r2_.fields):
+                    v1, v2 = r1_.fields.get(f), r2_.fields.get(f)
+                    if v1 is None or v2 is None:
+                        # lazily materialised on one side: same initial constant by construction
+                        r2_.fields[f] = v1 if v2 is None else v2
+                        continue
+                    m = self.merge_value(t, v1, v2)
+                    if m is None:
+                        return fail()
+                    r2_.fields[f] = m
+            elif isinstance(r1_, ListRec) and isinstance(r2_, ListRec):
+                if r1_.concrete and r2_.concrete and len(r1_.items) == len(r2_.items) and all(x is y for x, y in zip(r1_.items, r2_.items)):
+                    continue
+                if not r1_.concrete and not r2_.concrete and r1_.arr is r2_.arr and r1_.elem == r2_.elem:
+                    r2_.length = z3.If(t, r1_.length, r2_.length) if r1_.length is not r2_.length else r2_.length
+                    continue
+                return fail()
+            elif isinstance(r1_, LockRec) and isinstance(r2_, LockRec):
+                if r1_.held is not r2_.held and not z3.eq(r1_.held, r2_.held):
+                    return fail()
+            elif isinstance(r1_, DictRec) and isinstance(r2_, DictRec):
+                same = (r1_.items == r2_.items) if r1_.concrete and r2_.concrete else \
+                    (r1_.dom is r2_.dom and r1_.val is r2_.val and len(r1_.over) == len(r2_.over))
+                if not same:
+                    return fail()
+            elif isinstance(r1_, SetRec) and isinstance(r2_, SetRec):
+                same = (r1_.items == r2_.items) if r1_.concrete and r2_.concrete else r1_.dom is r2_.dom
+                if not same:
+                    return fail()
+            else:
+                return fail()
+        run.heap = heap2
+        frame.locals.clear()
+        frame.locals.update(merged_locals)
+        return True
 
     def s_If(self, node, frame):
         c = self.eval(node.test, frame)
-        if not node.orelse and self.is_print_only(node.body):
-            # effect-free body: no need to fork unless evaluating the printed text can raise or branch
-            run = self.run
-            t = E.simp(self.truthy(c))
-            if E.is_false(t):
-                return
-            nlog, npc = len(run.log), len(run.pc)
-            saved_dec = dict(run.decided)
-            run.solver.push()
-            ok = False
-            try:
-                if not E.is_true(t):
-                    run.pc.append(t)
-                    run.solver.add(t)
-                try:
-                    self.exec_block(node.body, frame)
-                    ok = len(run.log) == nlog
-                except (E.PyExc, E.PathEnd):
-                    ok = False
-            finally:
-                run.solver.pop()
-                del run.pc[npc:]
-                del run.log[nlog:]
-                del run.trace[nlog:]
-                run.decided = saved_dec
-            if ok:
+        t = E.simp(self.truthy(c))
+        if not (E.is_true(t) or E.is_false(t)) and self.mergeable_block(node.body) and self.mergeable_block(node.orelse) \
+                and not getattr(self, "no_merge", False):
+            if self.try_merge_if(node, frame, t):
                 return
         if self.test(c, ast.unparse(node.test)):
             self.exec_block(node.body, frame)
